@@ -158,6 +158,7 @@ theorem apply0_signal_mono (w : World) (l : Label) (x : EId) (hx : x < w.ne)
   case wiCancel => simpa [apply0] using h
   case expectTimeout x' => simp only [apply0]; split <;> simpa using h
   case expectCancelReq x' => simp only [apply0]; split <;> simpa using h
+  case hSkip p_ b_ e_ k_ => simp only [apply0]; split <;> simpa using h
   case stopBegin => simpa [apply0] using h
   case stopNoop => simpa [apply0] using h
   case stopEnd x' => simp only [apply0]; split <;> (try split) <;> simpa using h
